@@ -60,11 +60,11 @@ class Rule(whitespace.Rule):
         elif self.number_of_spaces_is_gte():
             return int(self.number_of_spaces[2:])
         elif self.number_of_spaces_is_gt():
-            return int(self.number_of_spaces[1:])
+            return int(self.number_of_spaces[1:]) + 1
         elif self.number_of_spaces_is_lte():
             return int(self.number_of_spaces[2:])
         elif self.number_of_spaces_is_lt():
-            return int(self.number_of_spaces[1:])
+            return int(self.number_of_spaces[1:]) - 1
         elif self.number_of_spaces_is_plus():
             return int(self.number_of_spaces[:-1])
 
